@@ -72,9 +72,11 @@ def check(ctx):
     # ---------------------------------------------------------------- R02.2 exact guards (lock-free ring)
     def guard(fkey, rule_key, want):
         body = eng.body(fkey); dg = dag.Dag(body); found = 0
-        for b in sorted(body.reachable):
+        for b in sorted(body.reachable, key=lambda x_: (len(body.dom[x_]), x_)):
             c = dag.cmp_of_switch(body, dg, b)
             if not c: continue
+            if _is_assertion(body, c):
+                continue      # a `debug_assert!` restating the bound on the accepted path: one of its edges only panics
             r = want(body, dg, b, c)
             if r is None: continue
             found += 1
@@ -238,6 +240,11 @@ def check(ctx):
                 return super().ob(rule, key, ok, site, detail, nontrivial, undecided)
             return ok
     C15.check(Idx(ctx, "R02.5"))
+
+def _is_assertion(body, c):
+    """one edge of the comparison leads nowhere but into a panic (no Return reachable): `assert!` / `debug_assert!`"""
+    return any(t not in body.can_return for t in (c[3], c[4]))
+
 
 def _signed(e):
     return e[0] == "cast" and e[1] in ("i32", "i64", "isize")
